@@ -39,6 +39,9 @@ def Pt.missing (p : Pt R) : Bool := p.1.isNone || p.2.isNone
 /-- sleap-io marks a point invisible iff both coordinates are NaN -/
 def Pt.invisible (p : Pt R) : Bool := p.1.isNone && p.2.isNone
 
+/-- both coordinates are numbers -/
+def Pt.full (p : Pt R) : Bool := p.1.isSome && p.2.isSome
+
 /-- float arithmetic with NaN propagation -/
 def o2 (f : R → R → R) : Coord R → Coord R → Coord R
   | some a, some b => some (f a b)
@@ -121,6 +124,22 @@ def cmCell [OfNat R 0] (kernel : R → R → R → R → R) (kp : Pt R) (gx gy :
 def multiCmCell [OfNat R 0] [LT R] [DecidableLT R] (kernel : R → R → R → R → R)
     (kps : List (Pt R)) (gx gy : R) : R :=
   kps.foldl (fun acc kp => maxR acc (cmCell kernel kp gx gy)) 0
+
+/-- the keypoints feeding channel `k` of `generate_multiconfmaps(instances, num_instances=n)`:
+node `k` of each of the first `n` rows (`instances[:, :num_instances]`) -/
+def channelKps (rows : List (List (Pt R))) (n k : Nat) : List (Pt R) :=
+  (rows.take n).map fun r => r.getD k Pt.nan
+
+/-- channel `k` of the multi-instance confidence maps at grid point `(gx, gy)`:
+`cms = zeros; for i in range(n_inst): cms = maximum(cms, make_confmaps(points[:, i]))` -/
+def multiChannel [OfNat R 0] [LT R] [DecidableLT R] (kernel : R → R → R → R → R)
+    (rows : List (List (Pt R))) (n k : Nat) (gx gy : R) : R :=
+  multiCmCell kernel (channelKps rows n k) gx gy
+
+/-- the single channel of the centroid maps (`is_centroids=True`: one node per animal) -/
+def centroidChannel [OfNat R 0] [LT R] [DecidableLT R] (kernel : R → R → R → R → R)
+    (cens : List (Pt R)) (n : Nat) (gx gy : R) : R :=
+  multiCmCell kernel (cens.take n) gx gy
 
 end Coords
 
